@@ -16,7 +16,43 @@ import (
 )
 
 type Locker = stdsync.Locker
-type Pool = stdsync.Pool
+// Pool mirrors sync.Pool with a behaviour that does not depend on processors
+// or the collector: Get returns the item that was Put last (or New()), so an
+// object that is handed back while still in use is handed out again at once.
+type Pool struct {
+	New   func() interface{}
+	real  int32
+	gen   uint32
+	items []interface{}
+}
+
+func (p *Pool) Get() interface{} {
+	spinLock(&p.real)
+	if g := simrt.Gen(); p.gen != g {
+		p.gen, p.items = g, nil
+	}
+	var x interface{}
+	if n := len(p.items); n > 0 {
+		x, p.items = p.items[n-1], p.items[:n-1]
+	}
+	atomic.StoreInt32(&p.real, 0)
+	if x == nil && p.New != nil {
+		x = p.New()
+	}
+	return x
+}
+
+func (p *Pool) Put(x interface{}) {
+	if x == nil {
+		return
+	}
+	spinLock(&p.real)
+	if g := simrt.Gen(); p.gen != g {
+		p.gen, p.items = g, nil
+	}
+	p.items = append(p.items, x)
+	atomic.StoreInt32(&p.real, 0)
+}
 type Map = stdsync.Map
 
 func spinLock(p *int32) {
@@ -89,6 +125,10 @@ func (m *Mutex) Unlock() {
 		simrt.MakeReadyID(int(t))
 	}
 	m.waiters = nil
+	// a scheduling point after the release: what follows an Unlock (a read of
+	// the state the lock protected, say) must be able to interleave with the
+	// next holder
+	simrt.YieldOnly()
 }
 
 // RWMutex mirrors sync.RWMutex (no writer preference is modelled: every
@@ -154,6 +194,7 @@ func (m *RWMutex) Unlock() {
 	}
 	m.writer = false
 	m.wakeAll()
+	simrt.YieldOnly()
 }
 
 func (m *RWMutex) RLock() {
@@ -195,6 +236,7 @@ func (m *RWMutex) RUnlock() {
 	}
 	m.readers--
 	m.wakeAll()
+	simrt.YieldOnly()
 }
 
 func (m *RWMutex) RLocker() Locker { return (*rlocker)(m) }
@@ -209,12 +251,13 @@ type WaitGroup struct {
 	real    int32
 	gen     uint32
 	n       int
+	epoch   int // times the counter came back to zero
 	waiters []int32
 }
 
 func (w *WaitGroup) sync() {
 	if g := simrt.Gen(); w.gen != g {
-		w.gen, w.n, w.waiters = g, 0, nil
+		w.gen, w.n, w.waiters, w.epoch = g, 0, nil, 0
 	}
 }
 
@@ -234,6 +277,7 @@ func (w *WaitGroup) Add(d int) {
 		panic("sync: negative WaitGroup counter")
 	}
 	if w.n == 0 {
+		w.epoch++
 		for _, t := range w.waiters {
 			simrt.MakeReadyID(int(t))
 		}
@@ -256,9 +300,17 @@ func (w *WaitGroup) Wait() {
 	}
 	simrt.Yield()
 	w.sync()
-	for w.n > 0 {
-		w.waiters = append(w.waiters, int32(simrt.CurID()))
-		simrt.WaitOn("waitgroup")
+	if w.n > 0 {
+		e := w.epoch
+		for w.epoch == e {
+			w.waiters = append(w.waiters, int32(simrt.CurID()))
+			simrt.WaitOn("waitgroup")
+		}
+		// as sync.WaitGroup: a waiter that wakes up after the counter reached
+		// zero and finds the group counting again was overtaken by a new Add
+		if w.n != 0 {
+			panic("sync: WaitGroup is reused before previous Wait has returned")
+		}
 	}
 }
 
